@@ -4,6 +4,7 @@ package main
 
 import (
 	"reflect"
+	"strconv"
 	"strings"
 
 	"github.com/jub0bs/cors"
@@ -178,15 +179,39 @@ func famConfig(o *Out, r R, tier string) {
 		c.ResponseHeaders = []string{d}
 		emit("single-reshdr-defect", c)
 	}
-	for _, v := range append(append([]int{}, maxAges...), maxAgesDefect...) {
+	for _, v := range append(append(append([]int{}, maxAges...), maxAgesDefect...), append(wrapInts(600), wrapInts(86400)...)...) {
 		c := cloneCfg(base)
 		c.MaxAgeInSeconds = v
 		emit("maxage", c)
 	}
-	for _, v := range append(append([]int{}, statuses...), statusesDefect...) {
+	for _, v := range append(append(append([]int{}, statuses...), statusesDefect...), append(wrapInts(204), wrapInts(299)...)...) {
 		c := cloneCfg(base)
 		c.PreflightSuccessStatus = v
 		emit("status", c)
+	}
+	// every ordered pair of defective origin patterns in one configuration: each error must name its own pattern
+	// (an error value that is shared or recycled between rejections names the wrong one)
+	for i, d1 := range originsDefect {
+		for j, d2 := range originsDefect {
+			if i != j && (tier == "thorough" || (i+j)%3 == 0) {
+				emit("origin-defect-pair", cors.Config{Origins: []string{d1, "https://example.com", d2}})
+			}
+		}
+	}
+	// numbers of violations at the boundaries of narrow counters
+	for _, cnt := range []int{255, 256, 257, 512} {
+		c := cors.Config{Origins: []string{"https://example.com"}}
+		for k := 0; k < cnt; k++ {
+			c.Origins = append(c.Origins, "https://bad"+strconv.Itoa(k)+".example.com/")
+		}
+		emit("violation-count", c)
+		c = cors.Config{Origins: []string{"https://example.com"}}
+		for k := 0; k < cnt; k++ {
+			c.Methods = append(c.Methods, "BAD METHOD"+strconv.Itoa(k))
+			c.RequestHeaders = append(c.RequestHeaders, "bad header"+strconv.Itoa(k))
+			c.ResponseHeaders = append(c.ResponseHeaders, "bad header"+strconv.Itoa(k))
+		}
+		emit("violation-count", c)
 	}
 	// the cross-field prohibitions: booleans x pattern kind
 	pats := []string{"*", "https://example.com", "http://example.com", "http://localhost", "http://127.0.0.1", "http://[::1]",
